@@ -1211,8 +1211,8 @@ def _check_object_generator(ctx, fg):
 def _global_state_hits(tree, containers):
     hits = []
     for n in ast.walk(tree):
-        if isinstance(n, (ast.Global, ast.Nonlocal)):
-            hits.append(('global/nonlocal statement', n))
+        if isinstance(n, ast.Global):         # (`nonlocal` rebinds a local of the enclosing function: call-local state)
+            hits.append(('global statement', n))
         if isinstance(n, ast.FunctionDef):
             for d in n.decorator_list:
                 txt = ast.unparse(d)
@@ -1238,5 +1238,13 @@ def _global_state_hits(tree, containers):
                             if not bound_locally:
                                 hits.append(('item store into module-level container %s' % t.value.id, x))
                         if isinstance(t, ast.Attribute) and isinstance(t.value, ast.Name) and t.value.id in ('cls',):
+                            # a class decorator (a module-level function used only as `@name` on class definitions) runs once,
+                            # at import: what it stores on the class is part of the class definition, not request state
+                            used_as = [d_ for c_ in ast.walk(tree) if isinstance(c_, ast.ClassDef) for d_ in c_.decorator_list
+                                       if isinstance(d_, ast.Name) and d_.id == n.name]
+                            other = [y for y in ast.walk(tree) if isinstance(y, ast.Name) and y.id == n.name and isinstance(y.ctx, ast.Load)
+                                     and not any(y is d_ for d_ in used_as)]
+                            if used_as and not other and n in getattr(tree, 'body', []):
+                                continue
                             hits.append(('store to a class attribute', x))
     return hits
